@@ -27,6 +27,10 @@ pub struct Swarm {
     pub w_bankruptcy: u32,
     pub w_crash: u32,
     pub w_pulse: u32,
+    pub w_borrow_boundary: u32,
+    pub w_withdraw_boundary: u32,
+    pub w_deposit_boundary: u32,
+    pub w_hunter: u32,
     pub fault_oracle_skip: u32, // per-mille: publisher skips a bank
     pub fault_cpi_fail: u32,    // per-mille: inject CPI failure in a tx
     pub fault_delay: u32,       // per-mille: deliver later
@@ -52,6 +56,10 @@ impl Swarm {
             w_bankruptcy: r(0, 8),
             w_crash: r(0, 5),
             w_pulse: r(0, 3),
+            w_borrow_boundary: r(2, 12),
+            w_withdraw_boundary: r(1, 8),
+            w_deposit_boundary: r(0, 6),
+            w_hunter: r(2, 15),
             fault_oracle_skip: if faults { r(0, 150) } else { 0 },
             fault_cpi_fail: if faults { r(0, 40) } else { 0 },
             fault_delay: if faults { r(0, 100) } else { 0 },
@@ -515,6 +523,335 @@ pub fn act_bankruptcy(sim: &Sim, ctx: &mut Ctx) -> Option<Tx> {
     ))
 }
 
+// ---------- reference-guided actors (boundary search on forks) -----------------------------------
+
+/// Largest x in [1, hi] for which `build(x)` succeeds on a fork (assuming monotone acceptance).
+/// Every probe is a ForkTx event, so monitors judge it and replays reproduce it.
+pub fn bisect_boundary(
+    sim: &mut Sim,
+    build: &dyn Fn(u64) -> Tx,
+    hi: u64,
+    max_probes: usize,
+) -> Option<u64> {
+    let mut probes = 0usize;
+    let mut try_x = |sim: &mut Sim, x: u64| -> bool {
+        let out = sim.apply(Event::ForkTx(build(x)));
+        out.map(|o| o.ok()).unwrap_or(false)
+    };
+    if hi == 0 {
+        return None;
+    }
+    if !try_x(sim, 1) {
+        return None;
+    }
+    if sim.violated() && sim.stop_on_violation {
+        return None;
+    }
+    if try_x(sim, hi) {
+        return Some(hi);
+    }
+    let (mut lo, mut hi) = (1u64, hi);
+    while hi - lo > 1 && probes < max_probes {
+        if sim.violated() && sim.stop_on_violation {
+            return None;
+        }
+        let mid = lo + (hi - lo) / 2;
+        probes += 1;
+        if try_x(sim, mid) {
+            lo = mid;
+        } else {
+            hi = mid;
+        }
+    }
+    if hi - lo > 1 {
+        return None;
+    }
+    Some(lo)
+}
+
+fn q_to_u64_sat(q: &model::Q) -> u64 {
+    if *q <= model::qi(0) {
+        return 0;
+    }
+    q.floor().to_integer().to_u64().unwrap_or(u64::MAX)
+}
+
+/// Ref estimate of the largest borrow (native units of `bank`) the account's initial health allows.
+pub fn est_max_borrow(sim: &Sim, ma: &Pubkey, bank_pk: &Pubkey) -> Option<u64> {
+    let acc = model::account_of(&sim.store, ma)?;
+    let bank = model::bank_of(&sim.store, bank_pk)?;
+    let h = crate::refm::health(&sim.store, &acc, crate::refm::Req::Init, sim.clock).ok()?;
+    let view = crate::refm::read_oracle(&sim.store, &bank, sim.clock).ok()?;
+    let (_, high, _) = crate::refm::biased(&view, &bank, true).ok()?;
+    let cost = model::q_w(bank.config.liability_weight_init) * high / model::pow10(bank.mint_decimals as u32);
+    if cost <= model::qi(0) {
+        return None;
+    }
+    Some(q_to_u64_sat(&(h.net() / cost)))
+}
+
+/// Boundary borrow: find the exact accept/reject threshold on forks, probe its neighbourhood,
+/// then execute one neighbour on the main timeline.
+pub fn act_borrow_boundary(sim: &mut Sim, ctx: &mut Ctx) -> Option<Tx> {
+    let (ui, gi, ma) = user_and_account(ctx)?;
+    let b = pick_bank(ctx, gi)?;
+    let u = ctx.world.users[ui].clone();
+    let ta = *u.tokens.get(&b.keys.mint)?;
+    let est = est_max_borrow(sim, &ma, &b.keys.bank)?;
+    if est == 0 {
+        return None;
+    }
+    let vault = token_balance(&sim.store, &b.keys.liquidity_vault);
+    let hi = est.saturating_mul(2).saturating_add(16).min(vault.max(1));
+    let rm = risk_metas(&sim.store, &ma, Some(b.keys.bank), None);
+    let keys = b.keys.clone();
+    let auth = u.authority;
+    let build = move |x: u64| Tx::one("boundary_user", ix::borrow(&keys, ma, auth, ta, x, rm.clone()));
+    let t = bisect_boundary(sim, &build, hi, 70)?;
+    sim.stats.fault("boundary_search_borrow");
+    for d in [-2i64, -1, 0, 1, 2] {
+        let x = (t as i64 + d).max(1) as u64;
+        sim.apply(Event::ForkTx(build(x)));
+        if sim.violated() && sim.stop_on_violation {
+            return None;
+        }
+    }
+    let d = ctx.rng.irange(-2, 1);
+    Some(build((t as i64 + d).max(1) as u64))
+}
+
+pub fn act_withdraw_boundary(sim: &mut Sim, ctx: &mut Ctx) -> Option<Tx> {
+    let (ui, _gi, ma) = user_and_account(ctx)?;
+    let acc = model::account_of(&sim.store, &ma)?;
+    let bals = active_balances(&acc);
+    if !bals.iter().any(|b| i80(b.liability_shares) >= I80F48::ONE) {
+        return None;
+    }
+    let assets: Vec<Balance> = bals
+        .into_iter()
+        .filter(|b| i80(b.asset_shares) >= I80F48::ONE)
+        .collect();
+    if assets.is_empty() {
+        return None;
+    }
+    let bal = ctx.rng.pick(&assets).clone();
+    let b = ctx.world.bank_info(&bal.bank_pk)?.clone();
+    let bank = model::bank_of(&sim.store, &bal.bank_pk)?;
+    let u = ctx.world.users[ui].clone();
+    let ta = *u.tokens.get(&b.keys.mint)?;
+    let cap = asset_amount_u64(&bank, &bal);
+    if cap < 2 {
+        return None;
+    }
+    let rm = risk_metas(&sim.store, &ma, None, None);
+    let keys = b.keys.clone();
+    let auth = u.authority;
+    let build = move |x: u64| {
+        Tx::one(
+            "boundary_user",
+            ix::withdraw(&keys, ma, auth, ta, x, None, rm.clone()),
+        )
+    };
+    let t = bisect_boundary(sim, &build, cap, 70)?;
+    sim.stats.fault("boundary_search_withdraw");
+    for d in [-2i64, -1, 0, 1, 2] {
+        let x = (t as i64 + d).max(1) as u64;
+        sim.apply(Event::ForkTx(build(x)));
+        if sim.violated() && sim.stop_on_violation {
+            return None;
+        }
+    }
+    let d = ctx.rng.irange(-2, 1);
+    Some(build((t as i64 + d).max(1) as u64))
+}
+
+/// Deposit around the remaining capacity (C17): capacity -1/0/+1, plain and "up to limit".
+pub fn act_deposit_boundary(sim: &mut Sim, ctx: &mut Ctx) -> Option<Tx> {
+    let (ui, gi, ma) = user_and_account(ctx)?;
+    let b = pick_bank(ctx, gi)?;
+    let bank = model::bank_of(&sim.store, &b.keys.bank)?;
+    if bank.config.deposit_limit == u64::MAX {
+        return None;
+    }
+    let u = ctx.world.users[ui].clone();
+    let ta = *u.tokens.get(&b.keys.mint)?;
+    let bq = BankQ::of(&bank);
+    let room = model::qu(bank.config.deposit_limit) - bq.assets();
+    let room = q_to_u64_sat(&room);
+    let keys = b.keys.clone();
+    let auth = u.authority;
+    sim.stats.fault("boundary_deposit_capacity");
+    for d in [-2i64, -1, 0, 1, 2] {
+        let x = (room as i64 + d).max(1) as u64;
+        for up in [None, Some(true)] {
+            sim.apply(Event::ForkTx(Tx::one(
+                "boundary_user",
+                ix::deposit(&keys, ma, auth, ta, x, up),
+            )));
+            if sim.violated() && sim.stop_on_violation {
+                return None;
+            }
+        }
+    }
+    let d = ctx.rng.irange(-2, 2);
+    let up = if ctx.rng.chance(1, 2) { Some(true) } else { None };
+    let x = if up.is_some() && ctx.rng.chance(1, 2) {
+        u64::MAX / 2
+    } else {
+        (room as i64 + d).max(1) as u64
+    };
+    Some(Tx::one("boundary_user", ix::deposit(&keys, ma, auth, ta, x, up)))
+}
+
+/// Hunter: look for accounts Ref considers liquidatable / bankrupt and act on them.
+pub fn act_hunter(sim: &mut Sim, ctx: &mut Ctx) -> Option<Tx> {
+    let mut targets: Vec<(usize, usize, Pubkey, bool)> = Vec::new();
+    for (ui, u) in ctx.world.users.iter().enumerate() {
+        for (gi, ma) in u.maccounts.iter() {
+            let Some(acc) = model::account_of(&sim.store, ma) else { continue };
+            if let Ok(h) = crate::refm::health(&sim.store, &acc, crate::refm::Req::Maint, sim.clock) {
+                if h.n_liabs > 0 && h.net() < model::qi(0) {
+                    let bankrupt = crate::refm::health(&sim.store, &acc, crate::refm::Req::Equity, sim.clock)
+                        .map(|e| e.assets < e.liabs && e.assets < model::qr(1, 10))
+                        .unwrap_or(false);
+                    targets.push((ui, *gi, *ma, bankrupt));
+                }
+            }
+        }
+    }
+    if targets.is_empty() {
+        return None;
+    }
+    let (lui, gi, liquidatee, bankrupt) = *ctx.rng.pick(&targets);
+    if bankrupt && ctx.rng.chance(2, 3) {
+        return bankruptcy_tx(sim, ctx, gi, liquidatee);
+    }
+    liquidation_boundary(sim, ctx, lui, gi, liquidatee)
+}
+
+fn bankruptcy_tx(sim: &Sim, ctx: &mut Ctx, gi: usize, ma: Pubkey) -> Option<Tx> {
+    let acc = model::account_of(&sim.store, &ma)?;
+    let liabs: Vec<Balance> = active_balances(&acc)
+        .into_iter()
+        .filter(|b| i80(b.liability_shares) > I80F48::ZERO)
+        .collect();
+    if liabs.is_empty() {
+        return None;
+    }
+    let lb = ctx.rng.pick(&liabs).clone();
+    let b = ctx.world.bank_info(&lb.bank_pk)?.clone();
+    let g = &ctx.world.groups[gi];
+    let signer = match ctx.rng.below(5) {
+        0 => g.admins.admin,
+        1 => ctx.world.stranger,
+        _ => g.admins.risk,
+    };
+    let rm = risk_metas(&sim.store, &ma, None, None);
+    Some(Tx::one("bankruptcy", ix::handle_bankruptcy(&b.keys, signer, ma, rm)))
+}
+
+fn liquidation_boundary(
+    sim: &mut Sim,
+    ctx: &mut Ctx,
+    lui: usize,
+    gi: usize,
+    liquidatee: Pubkey,
+) -> Option<Tx> {
+    let la = model::account_of(&sim.store, &liquidatee)?;
+    let bals = active_balances(&la);
+    let assets: Vec<Balance> = bals
+        .iter()
+        .filter(|b| i80(b.asset_shares) >= I80F48::ONE)
+        .cloned()
+        .collect();
+    let liabs: Vec<Balance> = bals
+        .iter()
+        .filter(|b| i80(b.liability_shares) >= I80F48::ONE)
+        .cloned()
+        .collect();
+    if assets.is_empty() || liabs.is_empty() {
+        return None;
+    }
+    let ab = ctx.rng.pick(&assets).clone();
+    let lb = ctx.rng.pick(&liabs).clone();
+    let asset_info = ctx.world.bank_info(&ab.bank_pk)?.clone();
+    let liab_info = ctx.world.bank_info(&lb.bank_pk)?.clone();
+    let liqs: Vec<(usize, Pubkey)> = ctx
+        .world
+        .users
+        .iter()
+        .enumerate()
+        .filter(|(ui, _)| *ui != lui)
+        .flat_map(|(ui, u)| {
+            u.maccounts
+                .iter()
+                .filter(|(g, _)| *g == gi)
+                .map(move |(_, ma)| (ui, *ma))
+        })
+        .collect();
+    if liqs.is_empty() {
+        return None;
+    }
+    let (qui, liquidator) = *ctx.rng.pick(&liqs);
+    let asset_bank = model::bank_of(&sim.store, &ab.bank_pk)?;
+    let liab_bank = model::bank_of(&sim.store, &lb.bank_pk)?;
+    let cap = asset_amount_u64(&asset_bank, &ab);
+    let mut rem: Vec<AccountMeta> = Vec::new();
+    rem.extend(world::oracle_metas_for(&asset_bank));
+    rem.extend(world::oracle_metas_for(&liab_bank));
+    let lq_acc = model::account_of(&sim.store, &liquidator)?;
+    let mut lq_banks: Vec<Pubkey> = active_balances(&lq_acc).iter().map(|b| b.bank_pk).collect();
+    for k in [ab.bank_pk, lb.bank_pk] {
+        if !lq_banks.contains(&k) {
+            lq_banks.push(k);
+        }
+    }
+    lq_banks.sort_by(|a, b| b.cmp(a));
+    let mut lq = Vec::new();
+    for bk in lq_banks {
+        lq.push(ix::ro(bk));
+        if let Some(bank) = model::bank_of(&sim.store, &bk) {
+            lq.extend(world::oracle_metas_for(&bank));
+        }
+    }
+    let le = risk_metas(&sim.store, &liquidatee, None, None);
+    let n_lq = lq.len() as u8;
+    let n_le = le.len() as u8;
+    rem.extend(lq);
+    rem.extend(le);
+    let authority = ctx.world.users[qui].authority;
+    let group = ctx.world.groups[gi].key;
+    let ak = asset_info.keys.clone();
+    let lk = liab_info.keys.clone();
+    let build = move |x: u64| {
+        Tx::one(
+            "liquidator",
+            ix::liquidate(group, &ak, &lk, liquidator, authority, liquidatee, x, n_le, n_lq, rem.clone()),
+        )
+    };
+    let hi = cap.saturating_add(2);
+    match bisect_boundary(sim, &build, hi, 70) {
+        Some(t) => {
+            sim.stats.fault("boundary_search_liquidation");
+            for d in [-1i64, 0, 1, 2] {
+                let x = (t as i64 + d).max(1) as u64;
+                sim.apply(Event::ForkTx(build(x)));
+                if sim.violated() && sim.stop_on_violation {
+                    return None;
+                }
+            }
+            let x = match ctx.rng.below(4) {
+                0 => t,
+                1 => (t / 2).max(1),
+                2 => t.saturating_add(1),
+                _ => ctx.rng.range(1, t.max(1)),
+            };
+            Some(build(x))
+        }
+        None => Some(build(pick_amount(ctx.rng, cap))),
+    }
+}
+
 // ---------- mempool / scheduler --------------------------------------------------------------------
 
 pub fn bank_q(store: &Store, k: &Pubkey) -> Option<BankQ> {
@@ -561,6 +898,10 @@ pub fn step_mkt(sim: &mut Sim, ctx: &mut Ctx) {
         s.w_bankruptcy,
         s.w_crash,
         s.w_pulse,
+        s.w_borrow_boundary,
+        s.w_withdraw_boundary,
+        s.w_deposit_boundary,
+        s.w_hunter,
     ];
     let choice = ctx.rng.pick_weighted(&weights);
     let tx: Option<Tx> = match choice {
@@ -614,8 +955,15 @@ pub fn step_mkt(sim: &mut Sim, ctx: &mut Ctx) {
             }
             None
         }
-        _ => act_pulse(sim, ctx),
+        12 => act_pulse(sim, ctx),
+        13 => act_borrow_boundary(sim, ctx),
+        14 => act_withdraw_boundary(sim, ctx),
+        15 => act_deposit_boundary(sim, ctx),
+        _ => act_hunter(sim, ctx),
     };
+    if sim.violated() && sim.stop_on_violation {
+        return;
+    }
     if let Some(mut tx) = tx {
         submit(sim, ctx, &mut tx);
     }
